@@ -651,6 +651,14 @@ impl Context {
                 "f64::NEG_INFINITY".into()
             }
         }
+        // the IDL grammar lets a `+` follow the `-` of a double constant (`-+1.5`);
+        // f64::from_str takes a single sign
+        fn parse_double(text: &str) -> f64 {
+            match text.strip_prefix("-+") {
+                Some(magnitude) => -magnitude.parse::<f64>().unwrap(),
+                None => text.parse::<f64>().unwrap(),
+            }
+        }
         Ok(match (lit, ty) {
             (Literal::Path(p), ty) => {
                 let ident_ty = self.codegen_ty(p.did);
@@ -724,11 +732,11 @@ impl Context {
                 )
             }
             (Literal::Float(f), CodegenTy::F64) => {
-                let f = f.parse::<f64>().unwrap();
+                let f = parse_double(f);
                 (f64_literal(f).into(), true)
             }
             (Literal::Float(f), CodegenTy::OrderedF64) => {
-                let f = f64_literal(f.parse::<f64>().unwrap());
+                let f = f64_literal(parse_double(f));
                 (format! { "::pilota::OrderedFloat({f})" }.into(), true)
             }
             (
